@@ -186,8 +186,18 @@ func (e *Env) maybeNameForce(term, sort, hint string) string {
 	if e.quantDepth > 0 {
 		return term
 	}
+	// the same term gets the same name (repeated reads of one location then are one symbol,
+	// which keeps queries small and lets quantifier patterns match across them)
+	key := "defname:" + sort + ":" + term
+	if n, ok := e.iteNames[key]; ok {
+		return n
+	}
 	n := e.fresh(hint, sort)
 	e.sess.Cmd("(assert (= " + n + " " + term + "))")
+	if e.iteNames == nil {
+		e.iteNames = map[string]string{}
+	}
+	e.iteNames[key] = n
 	return n
 }
 
